@@ -231,6 +231,52 @@ def check_state_after_compare(rep, mod):
                     % (fn, base_name(cs.callee), mod.where(f, cs)), key='R-VERIFY-STATE|%s|%s' % (fn, base_name(cs.callee)), sample='%s: nothing writes block_state after %s' % (fn, base_name(cs.callee)))
 
 
+def check_csum_range(rep, mod):
+    """the running checksum covers exactly the bytes a call consumed (deflate) / produced (inflate): every update_checksum(ctx, start, n) is
+    called with start = the cursor (next_in / next_out) saved earlier in the same function and n = cursor now - start."""
+    R = rep.rule('R-CSUM-RANGE', 'every call of update_checksum passes (start, n) with start loaded from the context\'s cursor field (next_in for deflate, next_out for inflate) and n = (current value of the same cursor field) - start; '
+                 'the one-shot stored fallback passes the entry values of next_in and avail_in, both loaded before anything was consumed', floor=7, unit='call sites')
+    for fn, f in sorted(mod.funcs.items()):
+        P = irrules.prov(mod, f)
+        for i in f.all_insns():
+            if i.op != 'call' or base_name(i.callee) != 'update_checksum':
+                continue
+            R.instance()
+            st, ln = i.args[1][1], i.args[2][1]
+            sat = P.atoms(st)
+            cur = [a for a in sat if a[0] == 'ld' and a[1][0] == 'param' and a[1][1] == 0]
+            where = mod.where(f, i)
+            if len(sat) != 1 or not cur:
+                R.fail(where, 'start argument is not a saved copy of a cursor field of the context (%s)' % sorted(sat, key=str), key='R-CSUM-RANGE|%s|%d|start' % (fn, i.line or 0))
+                continue
+            field = cur[0][1]
+            d = f.defs.get(irrules._strip(f, ln))
+            ok = False
+            why = ''
+            if d is not None and d.op == 'sub':
+                lhs = f.defs.get(irrules._strip(f, d.ops[0]))
+                lhs_ok = ('ld', field, 0) in P.atoms(d.ops[0]) and lhs is not None
+                rhs_ok = irrules._strip(f, _through_ptrtoint(f, d.ops[1])) == irrules._strip(f, st)
+                ok = lhs_ok and rhs_ok
+                why = 'length is %s - %s' % (sorted(P.atoms(d.ops[0]), key=str), sorted(P.atoms(d.ops[1]), key=str))
+            elif d is not None and d.op == 'load':
+                # entry values: both loads in the entry block, before any call
+                sd = f.defs.get(irrules._strip(f, st))
+                first_call = min([j.idx for j in f.blocks[f.order[0]].insns if j.op == 'call' and not j.callee.startswith('llvm.')] or [10 ** 9])
+                ok = sd is not None and sd.block == f.order[0] and d.block == f.order[0] and sd.idx < first_call and d.idx < first_call and any(a[0] == 'param' and a[1] == 0 for a in P.atoms(d.ops[0]))
+                why = 'length is a field value loaded at %s' % mod.where(f, d)
+            R.check(ok, where, '%s: update_checksum is not given (saved cursor, cursor now - saved cursor): %s; the checksum then covers bytes that were not processed in this call, or misses some' % (fn, why),
+                    key='R-CSUM-RANGE|%s|%d' % (fn, i.line or 0), sample='%s: n = cursor - start' % fn)
+
+
+def _through_ptrtoint(f, v):
+    d = f.defs.get(v)
+    while d is not None and d.op in ('ptrtoint', 'bitcast', 'zext', 'sext', 'trunc'):
+        v = d.ops[0]
+        d = f.defs.get(v)
+    return v
+
+
 def check_adler_range(rep, mod):
     """inflate keeps the running Adler-32 as B<<16 | (A-1); finalize_adler32 converts the low half back to A.
     Both halves of a reference Adler-32 are residues mod 65521, so the low half written here must lie in
@@ -288,6 +334,7 @@ def main(tier):
     check_cmp(rep, mod)
     check_trailer_write(rep, mod, flags)
     check_adler_range(rep, mod)
+    check_csum_range(rep, mod)
     check_state_after_compare(rep, mod)
     import c10
     c10.check_stored_bound(rep, mod)
